@@ -15,13 +15,13 @@ func init() {
 	register(simple("C05", "kernel", "mm/vmm", 8))
 	register(simple("C06", "kernel", "mm/vmm", 8))
 	register(simple("C07", "kernel", "mm/vmm", 4))
-	register(&prop{id: "C08", module: "kernel", pkg: "sync", level: "exploration", perCase: 220 * time.Second, post: postLockHistories,
+	register(&prop{id: "C08", module: "kernel", pkg: "sync", level: "exploration", perCase: 150 * time.Second, post: postLockHistories,
 		runs: []runSpec{
 			{name: "main", test: "^TestVerifC08$"},
 			{name: "racecalib", test: "^TestVerifC08Calib$", race: true, instr: true, calib: true},
 			{name: "race", test: "^TestVerifC08$", race: true, instr: true},
 		}})
-	register(&prop{id: "C09", module: "kernel", pkg: "mm/pmm", level: "exploration", perCase: 220 * time.Second, post: postFrameHistories,
+	register(&prop{id: "C09", module: "kernel", pkg: "mm/pmm", level: "exploration", perCase: 150 * time.Second, post: postFrameHistories,
 		runs: []runSpec{
 			{name: "main", test: "^TestVerifC09$"},
 			{name: "racecalib", pkg: "sync", test: "^TestVerifC08Calib$", race: true, instr: true, calib: true},
